@@ -14,6 +14,8 @@ pub type VersionId = Uuid;
 //@include regions/apply_op.rs
 //@include lemmas/undo.rs
 //@include regions/undo_impl.rs
+//@include regions/taskdb_types.rs
+//@include regions/taskdb_undo_wrapper.rs
 // ---- functions these properties depend on that are NOT verified (outside the verifier's reach): hashed; a change -> UNDECIDED
 //@watch C07 :: src/taskdb/mod.rs :: impl<S: Storage> TaskDb<S> :: fn commit_reversed_operations
 //@watch C07 :: src/taskdb/mod.rs :: impl<S: Storage> TaskDb<S> :: fn get_undo_operations
